@@ -256,9 +256,12 @@ TagConflict(p, l) ==
 \* the name of the new line is mentioned (and not yet defined) as something the line cannot be:
 \* a segment is expected but the line is not one, or a group item but the line is of a type that
 \* cannot be listed.  No document containing both can be valid; what gfapy does then is not specified.
+OItemIds(st) == UNION {RefIds(st.lines[i]) : i \in {j \in DOMAIN st.lines : st.lines[j].rt = "O"}}
 WrongKindForPlaceholder(st, l) ==
   Named(l) /\ ((l.name \in VirtSegIds(st) /\ l.rt # "S")
-               \/ (l.name \in UnknownIds(st) /\ l.rt \notin {"S", "E", "G", "O", "U"}))
+               \/ (l.name \in UnknownIds(st) /\ l.rt \notin {"S", "E", "G", "O", "U"})
+               \* an ordered group lists the identifier: it cannot be a set (whichever line comes first)
+               \/ (l.rt = "U" /\ l.name \in OItemIds(st) /\ l.name \notin NamesOf(st)))
 \* a line that mentions its own identifier (as a segment, or as an item of the group it is): the
 \* identifier would be carried by two lines / a group would list itself -- refused
 SelfMention(l) == Named(l) /\ l.name \in Mentions(l)
@@ -268,12 +271,16 @@ AddDecided(st, l) ==
   IF lv # "any" /\ lv # st.ver THEN {Fail(st, "VersionError")}
   ELSE IF l.rt = "#" THEN {Ok([st EXCEPT !.lines = Append(@, l)])}
   ELSE IF SelfMention(l) THEN {Fail(st, "NotUniqueError"), Fail(st, "Error")}
-  ELSE IF WrongKindForPlaceholder(st, l) THEN {Fail(st, "NotUniqueError"), Fail(st, "Error")}
+  ELSE IF WrongKindForPlaceholder(st, l)
+          /\ ~(IsLink(l) /\ \E i \in DOMAIN st.lines : LinkClash(st.lines[i], l) /\ IsComplement(l, st.lines[i]))
+    \* (the complement of a stored link is that link, whatever its ID tag says: C09's documented
+    \* exception, C12 -- decided below)
+    THEN {Fail(st, "NotUniqueError"), Fail(st, "Error")}
   ELSE IF SegMentions(l) \cap (NamesOf(st) \ SegIds(st)) # {}
     \* a segment is mentioned under an identifier that a line of another type carries
     THEN {Fail(st, "NotUniqueError"), Fail(st, "Error")}
   ELSE IF l.rt = "O" /\ \E i \in DOMAIN st.lines : st.lines[i].rt = "U" /\ st.lines[i].name \in RefIds(l)
-    THEN {[st |-> st, res |-> "unmodelled"]}   \* an ordered group cannot list a set: not specified
+    THEN {Fail(st, "Error")}                  \* an ordered group cannot list a set: refused
   ELSE IF IsLink(l) THEN
     LET clash == {i \in DOMAIN st.lines : LinkClash(st.lines[i], l)} IN
     IF \E i \in clash : IsComplement(l, st.lines[i]) /\ SameEnds(l, st.lines[i])
